@@ -196,7 +196,20 @@ func trunc(s string, n int) string {
 }
 
 func (c *Ctx) emit(m map[string]interface{}) {
-	b, _ := json.Marshal(m)
+	b, err := json.Marshal(m)
+	if err != nil {
+		// a value JSON cannot carry (+Inf, NaN, a channel ...) somewhere in the free-form parts:
+		// the record must not be lost, so those parts are written as text
+		m2 := map[string]interface{}{}
+		for k, v := range m {
+			if _, e := json.Marshal(v); e != nil {
+				m2[k] = fmt.Sprint(v)
+			} else {
+				m2[k] = v
+			}
+		}
+		b, _ = json.Marshal(m2)
+	}
 	b = append(b, '\n')
 	c.mu.Lock()
 	c.log.Write(b)
